@@ -447,7 +447,11 @@ class GibbsSampling(MarkovChain):
             factor = factor_product(*factors)
             scope = set(factor.scope())
             for tup in itertools.product(*[range(card) for card in other_cards]):
-                states = [State(v, s) for v, s in zip(other_vars, tup) if v in scope]
+                states = [
+                    State(v, factor.get_state_names(v, s))
+                    for v, s in zip(other_vars, tup)
+                    if v in scope
+                ]
                 reduced_factor = factor.reduce(states, inplace=False)
                 kernel[tup] = reduced_factor.values / sum(reduced_factor.values)
             self.transition_models[var] = kernel
@@ -487,7 +491,7 @@ class GibbsSampling(MarkovChain):
             scope = set(factor.scope())
             for tup in itertools.product(*[range(card) for card in other_cards]):
                 states = [
-                    State(first_var, s)
+                    State(first_var, factor.get_state_names(first_var, s))
                     for first_var, s in zip(other_vars, tup)
                     if first_var in scope
                 ]
